@@ -121,6 +121,7 @@ package log
 //@   ensures [C14+C10.sync-header-last] result0 == nil ==> hdrDur(s) == s.n && hdrMem(s) == s.n && s.synced == s.n
 //@   ensures [C14+C10.sync-keeps] SegInv(s) && CrashOK0(s) && SyncedOK(s) && (result0 == nil || old(CrashOK(s)) ==> CrashOK(s)) && s.n == old(s.n) && s.size == old(s.size)
 //@   ensures [C14.sync-keeps-good] old(SegGood(s)) ==> SegGood(s)
+//@   ensures [C14.sync-noop-when-clean] old(s.synced == s.n) ==> s.synced == s.n && result0 == nil
 //@   ensures [C13.sync-frame] forall(p, p < hdrPos(s) || p >= hdrPos(s) + 8 ==> raw(s.file.Data, p) == old(raw(s.file.Data, p)))
 //@   crash_inv [C14.sync-crash-ok] CrashOK0(s) && (old(CrashOK(s)) ==> hdrDur(s) <= s.n)
 
